@@ -202,9 +202,18 @@ func c19() {
 	run.Set("file_selection_by_target", selection)
 	// every selection must be one of the two that were executed
 	execSel := map[string]bool{"seccomp_linux.go+types_linux.go": true, "seccomp_unsupported.go+types_other.go": true}
+	uncovered := map[string][]string{}
 	for sel, tgs := range selection {
 		if !execSel[sel] && sel != "(go list fails)" {
-			run.Inconclusive(fmt.Sprintf("targets %v select the files %q, which no executed target covers: their constants cannot be observed here", tgs, sel))
+			uncovered[sel] = tgs
+		}
+	}
+	// a selection that no executed target covers is executed on this host if it compiles for it (overlay); what cannot be
+	// executed at all cannot be observed
+	coveredOnHost := c19ForeignFileSetsOnHost(run, harness, bin, selection, uncovered, want)
+	for sel, tgs := range uncovered {
+		if !coveredOnHost[sel] {
+			run.Inconclusive(fmt.Sprintf("targets %v select the files %q, which no executed target covers and which do not build for this host: their constants and stubs cannot be observed here", tgs, sel))
 		}
 	}
 	c19AllExported(run, o)
